@@ -265,6 +265,10 @@ func runChildren(self string, jobs []job, dir string, patience time.Duration) ([
 		go func() { done <- cmd.Wait() }()
 		// watchdog: progress = the results file grows; no growth for 40 s means a hang
 		lastSize, lastChange := int64(-1), time.Now()
+		if st, err := os.Stat(outPath); err == nil {
+			lastSize = st.Size()
+		}
+		grew := false // this child has written something (it first has to load the job file)
 		hung := false
 		var werr error
 	wait:
@@ -275,10 +279,11 @@ func runChildren(self string, jobs []job, dir string, patience time.Duration) ([
 			case <-time.After(500 * time.Millisecond):
 				if st, err := os.Stat(outPath); err == nil && st.Size() != lastSize {
 					lastSize, lastChange = st.Size(), time.Now()
+					grew = true
 				}
 				limit := patience
-				if lastSize <= 0 {
-					limit = patience + 3*time.Minute // loading the job file comes first
+				if !grew {
+					limit = patience + 5*time.Minute // loading the job file comes first
 				}
 				if time.Since(lastChange) > limit {
 					hung = true
